@@ -855,13 +855,13 @@ def run(ctx):
         parts += [(2, T, False, c) for c in chunk(configs("single", k2, [("S",), ("F",)], "empty", foreign_opts=NF), nproc)]
         # strict_hash=False: every history of 1..2 runs again (hashes ignored, failed / unreadable outputs still not reused)
         parts += [(2, T, False, c) for c in chunk(configs("single", k2, single, strict=False, foreign_opts=NF), nproc * 2)]
-        parts += [(2, T, False, c) for c in chunk(configs("vector", k2, vec5, strict=False, foreign_opts=NF), nproc * 3)]
+        parts += [(2, T, False, c) for c in chunk(configs("vector", k2, [p for p in vec5 if "O" not in p and "FS" not in p], strict=False, foreign_opts=NF), nproc * 3)]
         # key alphabets
         for name, ks in KEYSETS.items():
             parts += [(2, T, False, c) for c in chunk(configs("single", ks, [("S",), ("F",)], foreign_opts=NF, prepop=False), nproc)]
-            if name in ("lig", "ab", "ext"):
+            if name in ("lig", "ext"):
                 parts += [(2, T, False, c) for c in chunk(configs("vector", ks, [("S", "S"), ("F", "S")], foreign_opts=NF, prepop=False), nproc)]
-        ctx.bound["strict_hash"] = "True: everything; False: single (5 scripts) + vectorised (5 plans), 1..2 runs, with pre-populated destinations"
+        ctx.bound["strict_hash"] = "True: everything; False: single (5 scripts) + vectorised (plans SS, FS, SW), 1..2 runs, with pre-populated destinations"
         ctx.bound["key_sets"] = {k: v for k, v in KEYSETS.items()}
         ctx.bound["declarations"] = {"return_files=('res.txt',)": "all scripts", "return_files=None": "scripts S,F,FS,W; single + vectorised", "return_files=()": "scripts S,F; single"}
         ctx.bound.update({"items": 2, "runs": "1..2", "vector_plans": [list(p) for p in VEC5], "corrupt_kinds": T})
@@ -886,7 +886,7 @@ def run(ctx):
         parts += [(3, T, False, x) for x in chunk(configs("single", k2, single, strict=False, foreign_opts=NF), nproc * 2)]
         parts += [(2, CK, False, x) for x in chunk(configs("vector", k2, vec5, strict=False, foreign_opts=NF), nproc * 3)]
         parts += [(2, T, False, x) for x in chunk(configs("single", k3, single, strict=False, foreign_opts=NF), nproc * 3)]
-        parts += [(2, T, False, x) for x in chunk(configs("single", k2, noneO := [("S",), ("F",), ("FS",)], "none", strict=False, foreign_opts=NF), nproc)]
+        parts += [(2, T, False, x) for x in chunk(configs("single", k2, [("S",), ("F",), ("FS",)], "none", strict=False, foreign_opts=NF), nproc)]
         # key alphabets: all scripts, pre-populated destinations
         for name, ks in KEYSETS.items():
             parts += [(2, T, False, x) for x in chunk(configs("single", ks, single, foreign_opts=NF), nproc * 3)]
